@@ -4,6 +4,7 @@
   So a later in-place visitor on an extension result is confined to objects created by the extension (`extend_ok`).
 -/
 import PyGqlModel.Lemmas.HeapOwn
+import PyGqlModel.Lemmas.HeapReach
 import PyGqlModel.HeapExt
 
 set_option linter.unusedSimpArgs false
@@ -247,5 +248,48 @@ theorem extend_ok (cfg : Cfg) (hk : cfg.extKeepAll = true) (ext : Ext) (s : Sche
     rcases he with he | he
     · exact q3 e he
     · exact q4 e he
+
+/-- the `interfaces` of the document's new object types are written on objects the call allocated -/
+theorem setNewIfaces_ok (n : Nat) (reg : List (String × Addr)) (nn : List String)
+    (hb : ∀ nm na, nn.contains nm = true → lookup reg nm = some na → n ≤ na) : ∀ (l : List (String × List String)) (h : Heap),
+    Inv n h → Pres n h (setNewIfaces reg nn h l) := by
+  intro l
+  induction l with
+  | nil => intro h i; exact Pres.refl i
+  | cons e rest ih =>
+    intro h i
+    obtain ⟨nm, ms⟩ := e
+    simp only [setNewIfaces]
+    split
+    · rename_i hc
+      split
+      · rename_i na hl
+        split
+        · rename_i t ht
+          have hna := hb nm na hc hl
+          have p1 := pres_write i na (.type { t with ifaces := healedRefs reg (ms.map fun m => ⟨m, 0⟩) }) hna
+            (by simpa [kids] using type_fields_fresh i hna ht)
+          exact p1.trans (ih _ p1.1)
+        · exact ih h i
+      · exact ih h i
+    · exact ih h i
+
+/-- `extend_schema` as the code performs it (`extendO`): ownership as for `extend` (`hmem`: the re-ordered registry holds
+    entries of `extend`'s, `extendOrder_mem`) -/
+theorem extendO_ok (cfg : Cfg) (hk : cfg.extKeepAll = true) (ext : Ext) (s : Schema) (h : Heap)
+    (hnp : ∀ e, e ∈ ext.newTypes → isProtected e.1 = false)
+    (hmem : ∀ e, e ∈ (extendO cfg ext s h).2.types → e ∈ (extend cfg ext s h).2.types) :
+    Pres h.size h (extendO cfg ext s h).1 ∧ RegFresh h.size (extendO cfg ext s h).2 := by
+  obtain ⟨p, rf⟩ := extend_ok cfg hk ext s h
+  have hb : ∀ nm na, (ext.newTypes.map (·.1)).contains nm = true → lookup (extend cfg ext s h).2.types nm = some na → h.size ≤ na := by
+    intro nm na hc hl
+    rcases rf.1 (nm, na) (lookup_mem' hl) with hp | hp
+    · simp only [List.contains_iff_mem, List.mem_map] at hc
+      obtain ⟨e, he, rfl⟩ := hc
+      rw [hnp e he] at hp
+      cases hp
+    · exact hp
+  have p2 := setNewIfaces_ok h.size (extend cfg ext s h).2.types (ext.newTypes.map (·.1)) hb ext.newIfaces (extend cfg ext s h).1 p.1
+  exact ⟨p.trans p2, fun e he => rf.1 e (hmem e he), rf.2⟩
 
 end PyGql.Heap.Own
